@@ -155,6 +155,7 @@ func TestC12(t *testing.T) {
 
 					c.Case(vk.Hash(cfg, r.Trace), r.ResumeMustAccept > 0 && r.ResumeRejected+r.GarbageRejected > 0 && (r.Wraps > 0 || r.Growths > 0))
 					c.Count("resumes_accepted", r.ResumeAccepted)
+					c.Count("bootstrap_bookmarks_of_replaying_watches_resumed", r.NoopBookmarksResumed)
 					c.Count("resumes_rejected", r.ResumeRejected)
 					c.Count("resumes_in_must_accept_window", r.ResumeMustAccept)
 					c.Count("tails_checked", r.TailChecked)
